@@ -113,3 +113,13 @@ Proof.
   destruct (a_st a); try reflexivity. congruence.
 Qed.
 Print Assumptions C03_resume_request_ignored_unless_alive.
+
+(* the hypotheses of C03_restart_completes_in_order on a concrete state (actor 0 of the scenario above, launched, marked
+   restarting with no child left), and what its completing step shows: instance 0 ends, instance 1 starts *)
+Example C03_restart_completes_example :
+  exists s os a, krun c03_roles kinit [LSpawn 0 0; LRun 2] = Some (s, os) /\
+    let s0 := upd_actor s 2 (w_st Restarting) in
+    get s0 2 = Some a /\ a_children a = [] /\ a_st a = Restarting /\ is_sys (a_tok a) = false /\
+    handled (snd (fst (try_restarted c03_roles s0 2 rNone))) =
+      [OH 0 0 TT 0 rNone; OH 0 0 TTS 0 rNone; OH 0 1 TRD 0 rNone; OH 0 1 TL 0 rNone].
+Proof. eexists. eexists. eexists. split; [vm_compute; reflexivity|]. cbv zeta. repeat split; vm_compute; reflexivity. Qed.
